@@ -16,7 +16,8 @@
                     block and the deletion of the range's old entries to ITS batch, takes the next
                     range; when no range is left it hands its batch to the single committer, which
                     writes it atomically.  Batches therefore commit in COMPLETION order. }
-   A crash loses every batch not yet written; the rerun computes `first` again.
+   A crash loses every batch not yet written; the rerun computes `first` again.  A cancellation stops
+   the source of ranges; the ingestors drain, Migrate returns "rerun", the next start computes `first`.
 
    Actions are at the granularity the binding can force on the real code: Finish(i) = "the
    ingestor holding range held[i] ingests it now"; its consequence (next range taken, or batch
@@ -32,7 +33,7 @@
 *)
 EXTENDS Integers, Sequences, FiniteSets, TLC
 
-CONSTANTS NBlocks, R, I, MaxTx, MaxCrashes, EarlyFlush, FixH15, FixH20
+CONSTANTS NBlocks, R, I, MaxTx, MaxCrashes, MaxCancels, EarlyFlush, FixH15, FixH20
 
 Blocks == 0..(NBlocks - 1)
 Ing == 1..I
@@ -42,10 +43,11 @@ NoRange == -1
 VARIABLES orig,                       \* the content written before the migration (constant of a behaviour)
           old, blob, applied,         \* durable
           phase, next, held, batch,   \* the process: "down" | "running"
-          crashes, act
+          cancelled,                  \* the context of the running process is cancelled
+          crashes, cancels, act
 
-vars == <<orig, old, blob, applied, phase, next, held, batch, crashes, act>>
-view == <<orig, old, blob, applied, phase, next, held, batch, crashes>>
+vars == <<orig, old, blob, applied, phase, next, held, batch, cancelled, crashes, cancels, act>>
+view == <<orig, old, blob, applied, phase, next, held, batch, cancelled, crashes, cancels>>
 
 EmptyBatch == [blobs |-> << >>, dels |-> {}]
 Idle == [i \in Ing |-> NoRange]
@@ -57,6 +59,7 @@ Init ==
   /\ blob = [b \in Blocks |-> NoBlob]
   /\ applied = FALSE /\ phase = "down" /\ next = 0
   /\ held = Idle /\ batch = NoBatches /\ crashes = 0
+  /\ cancelled = FALSE /\ cancels = 0
   /\ act = [name |-> "Init"]
 
 Min(S) == CHOOSE x \in S : \A y \in S : x <= y
@@ -83,7 +86,8 @@ Begin ==
   /\ IF Work = {}
      THEN applied' = TRUE /\ UNCHANGED <<phase, next, held, batch>>
      ELSE StartRound /\ UNCHANGED applied
-  /\ UNCHANGED <<orig, old, blob, crashes>>
+  /\ cancelled' = FALSE
+  /\ UNCHANGED <<orig, old, blob, crashes, cancels>>
 
 (* ingestBlock reads the block's old entries from the database (never from pending batches) *)
 Ingested(b) ==
@@ -116,24 +120,36 @@ Finish(i, flush) ==
                 ELSE batch' = [batch EXCEPT ![i] = bt] /\ UNCHANGED <<old, blob>>
         ELSE /\ held' = [held EXCEPT ![i] = NoRange] /\ UNCHANGED next
              /\ Commit(bt) /\ batch' = [batch EXCEPT ![i] = EmptyBatch]
-  /\ UNCHANGED <<orig, applied, phase, crashes>>
+  /\ UNCHANGED <<orig, applied, phase, cancelled, crashes, cancels>>
 
-(* every ingestor is done: Migrate loops to getFirstBlockToMigrate *)
+(* the context is cancelled while the ingestors work: the source hands out no further range (the
+   pipeline still drains: every ingestor finishes the range it holds and hands over its batch) *)
+Cancel ==
+  /\ phase = "running" /\ ~cancelled /\ cancels < MaxCancels
+  /\ act' = [name |-> "Cancel"]
+  /\ cancelled' = TRUE /\ cancels' = cancels + 1
+  /\ next' = IF next < NBlocks THEN NBlocks ELSE next
+  /\ UNCHANGED <<orig, old, blob, applied, phase, held, batch, crashes>>
+
+(* every ingestor is done: a cancelled Migrate returns "rerun" (the runner saves that state and Run
+   returns the cancellation); otherwise Migrate loops to getFirstBlockToMigrate *)
 RoundEnd ==
   /\ phase = "running" /\ held = Idle
-  /\ act' = [name |-> "RoundEnd"]
-  /\ IF Work = {}
+  /\ act' = [name |-> "RoundEnd", cancelled |-> cancelled]
+  /\ IF cancelled
+     THEN phase' = "down" /\ UNCHANGED <<applied, next, held, batch>>
+     ELSE IF Work = {}
      THEN applied' = TRUE /\ phase' = "down" /\ UNCHANGED <<next, held, batch>>
      ELSE StartRound /\ UNCHANGED applied
-  /\ UNCHANGED <<orig, old, blob, crashes>>
+  /\ UNCHANGED <<orig, old, blob, cancelled, crashes, cancels>>
 
 Crash ==
   /\ phase = "running" /\ crashes < MaxCrashes
   /\ act' = [name |-> "Crash"]
   /\ phase' = "down" /\ held' = Idle /\ batch' = NoBatches /\ crashes' = crashes + 1
-  /\ UNCHANGED <<orig, old, blob, applied, next>>
+  /\ UNCHANGED <<orig, old, blob, applied, next, cancelled, cancels>>
 
-Next == Begin \/ (\E i \in Ing, fl \in BOOLEAN : Finish(i, fl)) \/ RoundEnd \/ Crash
+Next == Begin \/ (\E i \in Ing, fl \in BOOLEAN : Finish(i, fl)) \/ RoundEnd \/ Crash \/ Cancel
 Spec == Init /\ [][Next]_vars
 
 --------------------------------------------------------------------------------
